@@ -86,7 +86,8 @@ PRIORS = ["none", "ok", "ok_otherhash", "ok_rewired", "failed", "skipped"]
 OUT_STATES = ["untouched", "fresh", "equal", "older", "missing"]
 
 T_OLD, T_USRC = 10, 8        # ticks of untouched sources / of the upstream commands' own sources
-T_EQ, T_NEW = 20, 30
+T_EQ = 20
+T_NEW = 2 * (2200000000 - BASE_S)      # year 2039: newer than anything the wall clock stamps during the run
 
 
 def table_manifest(case, variant):
@@ -213,7 +214,7 @@ def table_case(llb, d, case):
     # outputs relative to the newest logical stamp among the delivered inputs
     req = ["e1", "e2"] + (["imp"] if case["imp"] != "none" else [])
     lm = [mtime(J(n)) for n in req]
-    newest = max([m for m in lm if m is not None and m < tick_ns(1000)] + [tick_ns(1)])
+    newest = max([m for m in lm if m is not None] + [tick_ns(1)])
     for o, st in zip(outs, case["outs"]):
         if st == "untouched":
             continue
